@@ -57,15 +57,17 @@ theorem mem_stronglyCoupledGroups {G : List Nat} {addSelf : Bool} :
       exact ⟨d, hd, by simp [hsc]⟩
 
 theorem selfCoupledAt_iff {i : Nat} :
-    selfCoupledAt ds i = true ↔ ∃ v, v ∈ outputsAt ds i ∧ v ∈ inputsAt ds i := by
-  unfold selfCoupledAt outputsAt inputsAt
+    selfCoupledAt ds i = true ↔
+      ∃ v, v ∈ outputsAt ds i ∧ v ∈ inputsAt ds i ∧ v ∉ statesAt ds i := by
+  unfold selfCoupledAt outputsAt inputsAt statesAt
   cases ds[i]? with
   | none => simp
   | some d =>
-    simp only [selfCoupled, List.any_eq_true, List.contains_eq_mem, decide_eq_true_eq]
+    simp only [selfCoupled, List.any_eq_true, List.contains_eq_mem, decide_eq_true_eq,
+      Bool.and_eq_true, Bool.not_eq_true', decide_eq_false_iff_not]
     constructor
-    · rintro ⟨v, h1, h2⟩; exact ⟨v, h2, h1⟩
-    · rintro ⟨v, h1, h2⟩; exact ⟨v, h2, h1⟩
+    · rintro ⟨v, h1, h2, h3⟩; exact ⟨v, h2, h1, h3⟩
+    · rintro ⟨v, h1, h2, h3⟩; exact ⟨v, h2, h1, h3⟩
 
 /-- A group of length `≤ 1` with a member is the singleton of that member. -/
 theorem eq_singleton_of_length {g : List Nat} (hlen : ¬ g.length > 1) {d : Nat} (hd : d ∈ g) :
@@ -74,36 +76,27 @@ theorem eq_singleton_of_length {g : List Nat} (hlen : ¬ g.length > 1) {d : Nat}
   | [x], _, hd => simp at hd; rw [hd]
   | _ :: _ :: _, hlen, _ => simp at hlen
 
-/-- `strong_couplings`: the names exchanged inside a class of mutual reachability (including the
-    names a discipline feeds back to itself). -/
-theorem mem_strongCouplings (hok : GroupsOk mu n seq) {v : String} :
-    v ∈ strongCouplings ds seq ↔
-      ∃ i j, mu i j = true ∧ v ∈ outputsAt ds i ∧ v ∈ inputsAt ds j := by
-  unfold strongCouplings
-  rw [mem_sortDedup]
-  simp only [List.mem_flatMap, List.mem_filter, List.contains_eq_mem, decide_eq_true_eq]
-  constructor
-  · rintro ⟨G, hG, ⟨j, hj, hvj⟩, ⟨i, hi, hvi⟩⟩
-    obtain ⟨g, hg, hcase⟩ := mem_stronglyCoupledGroups.1 hG
-    rcases hcase with ⟨_, rfl⟩ | ⟨_, _, d, hd, _, rfl⟩
-    · exact ⟨i, j, (hok.is_class _ hg i hi j).1 hj, hvi, hvj⟩
-    · simp only [List.mem_singleton] at hi hj
-      rw [hi] at hvi
-      rw [hj] at hvj
-      have hm := (hok.is_class g hg d hd d).1 hd
-      exact ⟨d, d, hm, hvi, hvj⟩
-  · rintro ⟨i, j, hij, hvi, hvj⟩
-    obtain ⟨g, hg, hig⟩ := hok.covers i (hok.lt _ _ hij).1
-    have hjg : j ∈ g := (hok.is_class g hg i hig j).2 hij
-    by_cases hlen : g.length > 1
-    · exact ⟨g, mem_stronglyCoupledGroups.2 ⟨g, hg, Or.inl ⟨hlen, rfl⟩⟩, ⟨j, hjg, hvj⟩, ⟨i, hig, hvi⟩⟩
-    · have hgi := eq_singleton_of_length hlen hig
-      have hji : j = i := by rw [hgi] at hjg; simpa using hjg
-      subst hji
-      have hsc : selfCoupledAt ds j = true := selfCoupledAt_iff.2 ⟨v, hvi, hvj⟩
-      refine ⟨[j], mem_stronglyCoupledGroups.2 ⟨g, hg, Or.inr ⟨hlen, rfl, j, hig, hsc, rfl⟩⟩, ?_, ?_⟩
-      · exact ⟨j, by simp, hvj⟩
-      · exact ⟨j, by simp, hvi⟩
+/-- A list with two different members has length `> 1`. -/
+theorem length_gt_one_of_two {g : List Nat} {i k : Nat} (hi : i ∈ g) (hk : k ∈ g) (hne : k ≠ i) :
+    g.length > 1 := by
+  match g, hi, hk with
+  | [x], hi, hk =>
+    simp only [List.mem_singleton] at hi hk
+    exact absurd (hk.trans hi.symm) hne
+  | _ :: _ :: _, _, _ => simp
+
+/-- A duplicate-free list of length `> 1` has, beside any member, another member. -/
+theorem exists_other_member {g : List Nat} (hnd : g.Nodup) (hlen : g.length > 1) {i : Nat}
+    (hi : i ∈ g) : ∃ j ∈ g, j ≠ i := by
+  match g, hlen, hi, hnd with
+  | x :: y :: rest, _, _, hnd =>
+    by_cases hx : x = i
+    · subst hx
+      refine ⟨y, by simp, ?_⟩
+      intro hyx
+      rw [List.nodup_cons] at hnd
+      exact hnd.1 (by simp [hyx])
+    · exact ⟨x, by simp, hx⟩
 
 /-- `strongly_coupled_disciplines`: the disciplines on a cycle (in a class with another
     discipline, or feeding themselves). -/
@@ -117,18 +110,8 @@ theorem mem_stronglyCoupled (hok : GroupsOk mu n seq) {i : Nat} :
     obtain ⟨g, hg, hcase⟩ := mem_stronglyCoupledGroups.1 hG
     rcases hcase with ⟨hlen, rfl⟩ | ⟨_, _, d, hd, hsc, rfl⟩
     · have hin : i < n := (hok.lt _ _ ((hok.is_class _ hg i hiG i).1 hiG)).1
-      refine ⟨hin, Or.inl ?_⟩
-      -- a second member of the group
-      have hnd := hok.nodup _ hg
-      match G, hlen, hiG, hnd with
-      | x :: y :: rest, _, hiG, hnd =>
-        by_cases hx : x = i
-        · subst hx
-          refine ⟨y, ?_, (hok.is_class _ hg x hiG y).1 (by simp)⟩
-          intro hyx
-          rw [List.nodup_cons] at hnd
-          exact hnd.1 (by simp [hyx])
-        · exact ⟨x, hx, (hok.is_class _ hg i hiG x).1 (by simp)⟩
+      obtain ⟨j, hj, hji⟩ := exists_other_member (hok.nodup _ hg) hlen hiG
+      exact ⟨hin, Or.inl ⟨j, hji, (hok.is_class _ hg i hiG j).1 hj⟩⟩
     · simp only [List.mem_singleton] at hiG
       subst hiG
       have hin : i < n := (hok.lt _ _ ((hok.is_class _ hg i hd i).1 hd)).1
@@ -145,6 +128,44 @@ theorem mem_stronglyCoupled (hok : GroupsOk mu n seq) {i : Nat} :
         exact hji (by simpa using hjg)
       · exact ⟨[i], mem_stronglyCoupledGroups.2 ⟨g, hg, Or.inr ⟨hlen, rfl, i, hig, hsc, rfl⟩⟩,
           by simp⟩
+
+/-- `strong_couplings`: the names exchanged inside a class of mutual reachability by strongly
+    coupled disciplines (including the names such a discipline feeds back to itself). -/
+theorem mem_strongCouplings (hok : GroupsOk mu n seq) {v : String} :
+    v ∈ strongCouplings ds seq ↔
+      ∃ i j, mu i j = true ∧ v ∈ outputsAt ds i ∧ v ∈ inputsAt ds j ∧
+        i ∈ stronglyCoupled ds seq true := by
+  unfold strongCouplings
+  rw [mem_sortDedup]
+  simp only [List.mem_flatMap, List.mem_filter, List.contains_eq_mem, decide_eq_true_eq]
+  constructor
+  · rintro ⟨G, hG, ⟨j, hj, hvj⟩, ⟨i, hi, hvi⟩⟩
+    have hisc : i ∈ stronglyCoupled ds seq true := by
+      unfold stronglyCoupled; exact List.mem_flatten.2 ⟨G, hG, hi⟩
+    obtain ⟨g, hg, hcase⟩ := mem_stronglyCoupledGroups.1 hG
+    rcases hcase with ⟨_, rfl⟩ | ⟨_, _, d, hd, _, rfl⟩
+    · exact ⟨i, j, (hok.is_class _ hg i hi j).1 hj, hvi, hvj, hisc⟩
+    · simp only [List.mem_singleton] at hi hj
+      rw [hi] at hvi hisc
+      rw [hj] at hvj
+      have hm := (hok.is_class g hg d hd d).1 hd
+      exact ⟨d, d, hm, hvi, hvj, hisc⟩
+  · rintro ⟨i, j, hij, hvi, hvj, hisc⟩
+    obtain ⟨g, hg, hig⟩ := hok.covers i (hok.lt _ _ hij).1
+    have hjg : j ∈ g := (hok.is_class g hg i hig j).2 hij
+    by_cases hlen : g.length > 1
+    · exact ⟨g, mem_stronglyCoupledGroups.2 ⟨g, hg, Or.inl ⟨hlen, rfl⟩⟩, ⟨j, hjg, hvj⟩, ⟨i, hig, hvi⟩⟩
+    · have hgi := eq_singleton_of_length hlen hig
+      have hji : j = i := by rw [hgi] at hjg; simpa using hjg
+      subst hji
+      have hsc : selfCoupledAt ds j = true := by
+        rcases ((mem_stronglyCoupled hok).1 hisc).2 with ⟨k, hkj, hjk⟩ | hsc
+        · exfalso
+          exact hlen (length_gt_one_of_two hig ((hok.is_class g hg j hig k).2 hjk) hkj)
+        · exact hsc
+      refine ⟨[j], mem_stronglyCoupledGroups.2 ⟨g, hg, Or.inr ⟨hlen, rfl, j, hig, hsc, rfl⟩⟩, ?_, ?_⟩
+      · exact ⟨j, by simp, hvj⟩
+      · exact ⟨j, by simp, hvi⟩
 
 /-- `weakly_coupled_disciplines`: the disciplines that are on no cycle. -/
 theorem mem_weaklyCoupled (hok : GroupsOk mu n seq) {i : Nat} :
